@@ -148,7 +148,32 @@ def special_values():
                   "\ud800", "\udbff", "\udc00", "\udc80", "a\udcffb", "\udfff", ["\udc80"], {"\udcfe": 1}, ("x", "\udc81"),
                   "\ufeff", "\ufeffabc", {"\ufeffk": 1, "k": 2}, ["\ufeff\ufeff"], "\ufffe", "\x00\ufeff",
                   b"x" * 70000, [b"z" * 65537, b"w" * 65536],
-                  float("nan"), [float("nan")], (float("inf"), -0.0), complex(float("nan"), -0.0)]
+                  float("nan"), [float("nan")], (float("inf"), -0.0), complex(float("nan"), -0.0)] + ordered_pairs()
+
+
+def subclass_models():
+    """model values in which an instance of a subclass of a supported builtin (unsupported: type-exactness) stands alone, or directly
+    behind / in front of an instance of its base type inside a list, a tuple or a dict"""
+    base = {"int": ["int", False, [1]], "str": ["str", [120]], "list": ["list", []], "dict": ["dict", []], "float": ["float", [63, 248, 0, 0, 0, 0, 0, 0]],
+            "bytes": ["bytes", [98]], "tuple": ["tuple", []], "set": ["set", []]}
+    out = []
+    for k, b in base.items():
+        bad = ["bad", k]
+        out += [bad, ["list", [b, bad]], ["list", [bad, b]], ["tuple", [b, bad]], ["dict", [[["str", [97]], b], [["str", [98]], bad]]], ["list", [b, b, bad, b]]]
+    return out
+
+
+def ordered_pairs():
+    """every ordered pair of leaves of different types next to each other in a list, a tuple and as dict values (an encoder that
+    picks the routine for an item from its neighbour shows here), and both signs of zero in either order"""
+    leaves = [None, True, False, 0, 1, 2**40, 1.5, 0.0, -0.0, 1j, complex(-0.0, 0.0), b"x", "x", (), [], {}, frozenset()]
+    out = []
+    for a in leaves:
+        for b in leaves:
+            if type(a) is not type(b) or (a == 0 and b == 0 and repr(a) != repr(b)):
+                out.append([a, b])
+    out += [(1, True), (True, 1), {"a": 1, "b": True}, {"a": 0.0, "b": -0.0}, [0.0, -0.0, 0.0], [-0.0, 0.0], [complex(0.0, -0.0), complex(-0.0, 0.0)], [1, True, 2, False]]
+    return out
 
 
 # --------------------------------------------------------------- mutations
